@@ -45,11 +45,12 @@ func Compact(buf *bytes.Buffer, src []byte, escape bool) error {
 }
 
 func compactAndWrite(buf *bytes.Buffer, dst []byte, src []byte, escape bool) error {
+	written := len(dst) // dst starts with what the buffer already holds
 	dst, err := compact(dst, src, escape)
 	if err != nil {
 		return err
 	}
-	if _, err := buf.Write(dst); err != nil {
+	if _, err := buf.Write(dst[written:]); err != nil {
 		return err
 	}
 	return nil
